@@ -176,7 +176,9 @@ func allowedFor(disk map[int64]bool, mtime int64, raw []wire.Content) map[int64]
 			res[c.Info.MTime] = "explicit-entry-mtime"
 		}
 	}
-	res[0] = "zero"
+	if _, declared := res[0]; !declared { // an entry may declare the epoch itself as its time
+		res[0] = "zero"
+	}
 	res[c07ZeroTimeU32] = "unset-gzip-constant"
 	res[mtime] = "configured-mtime"
 	return res
@@ -444,6 +446,18 @@ func runC07(c *Ctx) error {
 		}
 		if i%3 == 2 {
 			withChangelog(s)
+		}
+		if i > 0 && i <= 10 {
+			// the first specs all go through zstd (deb and rpm): frames, padding and checksums of the encoder must be a
+			// function of the input – ten different payload lengths, odd and even
+			old := s.Mutate
+			s.Mutate = func(info *nfpm.Info) {
+				if old != nil {
+					old(info)
+				}
+				info.Deb.Compression, info.RPM.Compression = "zstd", "zstd"
+			}
+			s.Describe["deb.compression"], s.Describe["rpm.compression"] = "zstd", "zstd"
 		}
 		allowed := allowedFor(disk, s.MTime, s.Raw)
 		allowed[c07ChangelogDate] = "changelog-entry-date"
